@@ -171,7 +171,41 @@ class Normalise(ast.NodeTransformer):
                 self.in_helper = prev
         return self._visit_function(n)
 
+    @staticmethod
+    def _verdict_returns(n):
+        """opcode handlers (`op_*`) answer True / False: `return a <= b` there is `if a <= b: return True` / `return False`
+        (a comparison of ints / Locktime / Sequence yields a bool), the form the guard rules read"""
+        class R(ast.NodeTransformer):
+            def visit_FunctionDef(self, f):
+                return f if f is not n else self.generic_visit(f)
+
+            def visit_Lambda(self, f):
+                return f
+
+            def _fix(self, stmts):
+                out = []
+                for s in stmts:
+                    v = s.value if isinstance(s, ast.Return) else None
+                    core = v.operand if isinstance(v, ast.UnaryOp) and isinstance(v.op, ast.Not) else v
+                    if isinstance(core, ast.Compare) and len(core.ops) == 1 and not isinstance(core.ops[0], (ast.In, ast.NotIn, ast.Is, ast.IsNot)):
+                        out.append(ast.copy_location(ast.If(test=v, body=[ast.copy_location(ast.Return(value=ast.Constant(value=True)), s)], orelse=[]), s))
+                        out.append(ast.copy_location(ast.Return(value=ast.Constant(value=False)), s))
+                    else:
+                        out.append(s)
+                return out
+
+            def generic_visit(self, node):
+                node = super().generic_visit(node)
+                for f in ("body", "orelse", "finalbody"):
+                    v = getattr(node, f, None)
+                    if isinstance(v, list) and v and isinstance(v[0], ast.stmt):
+                        setattr(node, f, self._fix(v))
+                return node
+        return ast.fix_missing_locations(R().visit(n))
+
     def _visit_function(self, n):
+        if n.name.startswith("op_") and any(isinstance(r, ast.Return) and isinstance(r.value, ast.Constant) and isinstance(r.value.value, bool) for r in ast.walk(n)):
+            n = self._verdict_returns(n)
         saved = self.uses
         # a temporary is inlined when every read of it is the `return t` / `if t` / `if not t` right after an assignment
         loads, pairs = {}, {}
